@@ -598,9 +598,10 @@ func c01R2(c *Ctx) {
 	for _, T := range ts {
 		tn := c01ClosureKey(T, "traverse")
 		var S ssa.Value
-		gos := CallsTo(T, nGo)
-		for _, g := range gos {
-			S = variadicArg(g)
+		var gos []ssa.CallInstruction
+		for _, d := range c01DispatchCalls(T, entryOf[T]) {
+			S = d.Items
+			gos = append(gos, d.Call)
 		}
 		if S == nil {
 			c.LostAnchor(R, tn+": dispatched successors")
@@ -688,8 +689,14 @@ func c01R2(c *Ctx) {
 	{
 		fsField := c01FieldOf(c.P, "", "CopyGraphOptions", "FindSuccessors")
 		var gs []*ssa.Function
+		gset := map[*ssa.Function]bool{}
 		for g := range c01GraphCopyFns(c.P) {
-			gs = append(gs, g)
+			for h := range c01ReachableFns(g, 2) { // the defaulting may sit in a constructor the graph copy calls
+				if fnPkgPath(h) == Mod && !gset[h] {
+					gset[h] = true
+					gs = append(gs, h)
+				}
+			}
 		}
 		sort.Slice(gs, func(i, j int) bool { return gs[i].String() < gs[j].String() })
 		found := false
@@ -1548,7 +1555,9 @@ func c01R4(c *Ctx) {
 			}
 			// the cache-existence check comes after the dispatch (the syncutil.Go call, or the call of the function holding it)
 			var dispatch []ssa.CallInstruction
-			dispatch = append(dispatch, CallsTo(T, nGo)...)
+			for _, d := range c01DispatchCalls(T, tr.Entry) {
+				dispatch = append(dispatch, d.Call)
+			}
 			if T != tr.Body {
 				for _, dc := range Calls(T, func(string) bool { return true }) {
 					callee := StaticCallee(dc)
